@@ -204,18 +204,22 @@ impl Format {
                 }
 
                 if cur_token == Token::Timescale {
-                    // Then we match the timescale directly.
-                    if idx != s.len() - 1 {
-                        // We have some remaining characters, so let's parse those in the only formats we know.
-                        // `idx` counts characters: it is not a valid byte offset after a multi-byte character.
-                        let rest = s.get(idx..).ok_or(HifitimeError::Parse {
-                            source: ParsingError::UnknownFormat,
-                            details: "non-ASCII input when parsing from format string",
-                        })?;
-                        ts = TimeScale::from_str(rest.trim()).with_context(|_| ParseSnafu {
-                            details: "when parsing from format string",
-                        })?;
-                    }
+                    // Then we match the timescale directly: it is the rest of the input, from this separator on,
+                    // or the whole field when this is the last character of the input.
+                    // `idx` counts characters: it is not a valid byte offset after a multi-byte character.
+                    let start = if idx != s.len() - 1 { idx } else { prev_idx };
+                    let rest = s.get(start..).ok_or(HifitimeError::Parse {
+                        source: ParsingError::UnknownFormat,
+                        details: "non-ASCII input when parsing from format string",
+                    })?;
+                    // The second separator of the previous token may still stand in front of the field.
+                    let rest = rest
+                        .trim()
+                        .trim_start_matches(|c| prev_item.second_sep_char_is(c))
+                        .trim();
+                    ts = TimeScale::from_str(rest).with_context(|_| ParseSnafu {
+                        details: "when parsing from format string",
+                    })?;
                     break;
                 }
 
@@ -246,8 +250,11 @@ impl Format {
 
                 let end_idx = if zulu {
                     idx
-                } else if idx != s.len() - 1 || !char.is_numeric() {
-                    // Only advance the token if we aren't at the end of the string
+                } else if idx != s.len() - 1
+                    || (!char.is_numeric() && (cur_token.is_numeric() || cur_item.sep_char_is(char)))
+                {
+                    // Only advance the token if we aren't at the end of the string (there, the last character
+                    // belongs to a name, unless it is its separator)
                     if cur_item.sep_char_is_not(char)
                         && (cur_item.second_sep_char.is_none()
                             || (cur_item.second_sep_char_is_not(char)))
@@ -389,7 +396,13 @@ impl Format {
                     break;
                 }
 
-                prev_idx = idx + 1;
+                // A character that ended a numeric field without being its separator is the first one of the name
+                // that follows.
+                prev_idx = if end_idx == idx && !cur_token.is_numeric() && prev_item.sep_char.is_none() {
+                    idx
+                } else {
+                    idx + 1
+                };
                 // If we are about to parse an hours offset, we need to set the sign now.
                 if cur_token == Token::OffsetHours {
                     let sign = s.get(idx..idx + 1).ok_or(HifitimeError::Parse {
